@@ -155,6 +155,7 @@ pub struct BuilderArea {
     addr_dump: HashMap<usize, String>,
     threshold: usize,
     faulted:   bool,
+    pub red:   crate::area_red::RedState,
 }
 
 impl Default for BuilderArea {
@@ -172,6 +173,7 @@ impl Default for BuilderArea {
             addr_dump: HashMap::new(),
             threshold: 3,
             faulted:   false,
+            red:       Default::default(),
         }
     }
 }
